@@ -73,9 +73,12 @@ def apalache_slice(ctx, idx, rows):
 
 
 def run(ctx):
+    if ctx.quick:
+        # short JVM runs: C1-only JIT and two GC threads halve CPU and wall time on a loaded machine
+        os.environ.setdefault("JAVA_TOOL_OPTIONS", "-XX:TieredStopAtLevel=1 -XX:ParallelGCThreads=2")
     if ctx.only is None:
         if ctx.quick:
-            vlib.tlc_mc(ctx, "FeeMarket_MC", "FeeMarket_MC_quick.cfg", label="all")          # MAXU = 7, both tables
+            vlib.tlc_mc(ctx, "FeeMarket_MC", "FeeMarket_MC_quick.cfg", label="all")          # MAXU = 5, both tables
         else:
             vlib.tlc_mc(ctx, "FeeMarket_MC", "FeeMarket_MC_price.cfg", label="price")        # MAXU = 15
             vlib.tlc_mc(ctx, "FeeMarket_MC", "FeeMarket_MC_window.cfg", label="window")
@@ -87,12 +90,12 @@ def run(ctx):
             ctx.cov["design_step_detects_wrapping_product"] = hit
             if not hit:
                 raise vlib.Infra("sensitivity: the wrapping rule no longer differs from the exact rule in FeeMarket_MC")
-    calls = ctx.pick(8, 400)
+    calls = ctx.pick(3, 400)
     rc, out = vlib.go_driver(ctx, PKG, "^TestVerifFeeMarketRows$", files=FILES, env={"VERIF_CALLS": calls})
     if rc != 0:
         raise vlib.Infra("fee market recorder failed:\n" + out[-3000:])
     rows = vlib.read_ndjson(os.path.join(ctx.work, "out", "rows.ndjson"))
-    if ctx.only is None and len(rows) < 5 * (calls + 13):
+    if ctx.only is None and len(rows) < 5 * (calls + ctx.pick(7, 13)):
         raise vlib.Infra("recorder wrote %d rows for %d calls" % (len(rows), calls))
     if not rows:
         raise vlib.Infra("recorder wrote no rows")
@@ -144,7 +147,7 @@ def run(ctx):
             f["signature"] = sig_of(f["row"]) if orig else "row:tlc"
             fails.append(f)
     # ---- Apalache on every row, 64-bit
-    width = min(8, max(1, vlib.NCPU // 2))
+    width = min(ctx.pick(4, 8), max(1, vlib.NCPU // 2))
     per = max(1, -(-len(rows) // width))
     slices = [rows[i:i + per] for i in range(0, len(rows), per)]
     validated = 0
